@@ -10,7 +10,7 @@ CONSTANTS MaxAllNodes, WrapStride
 
 \* all ASTs, typed or not (binary/unary/ternary shapes; thresh with <= 2 children)
 AllAst[n \in 1..MaxAllNodes] ==
-  IF n = 1 THEN LeafAsts \cup SugarLeafAsts
+  IF n = 1 THEN LeafAsts \cup SugarLeafAsts \cup CrossLeaves
   ELSE {Un(w, x) : w \in Wrappers, x \in AllAst[n - 1]}
        \cup UNION {{Bin(f, x, y) : f \in BinFrags, x \in AllAst[i], y \in AllAst[n - 1 - i]} : i \in 1..(n - 2)}
        \cup UNION {{Tern("andor", x, y, z) : x \in AllAst[s[1]], y \in AllAst[s[2]], z \in AllAst[s[3]]}
@@ -18,18 +18,24 @@ AllAst[n \in 1..MaxAllNodes] ==
        \cup {Thresh(k, <<x>>) : k \in {1, 2}, x \in AllAst[n - 1]}
        \cup UNION {{Thresh(k, <<x, y>>) : k \in {0, 1, 2, 3}, x \in AllAst[i], y \in AllAst[n - 1 - i]} : i \in 1..(n - 2)}
 
+m_k_ok(a) == a.f \notin {"multi", "multi_a", "sortedmulti", "sortedmulti_a"} \/ (a.n >= 1 /\ a.n <= Len(a.ks))
 Typed0 == {x.a : x \in {y \in WTUpTo(MaxNodes) : KeyCanonical(y.a)}}
 TypedComp == (CompKept \cup Comp2Kept \cup PrefixedKept \cup LockMix(WrapStride) \cup NestedChoice(NCKeep, CompSeed) \cup ThreshMix(NCKeep)) \ Typed0
 TypedWrap == (({x.a : x \in {y \in WrappedTyped(WrapStride, CompSeed) : KeyCanonical(y.a)}}
                \cup {x.a : x \in WrappedConj(WrapStride)}) \ Typed0) \ TypedComp
-Typed == Typed0 \cup TypedComp \cup TypedWrap
+\* number boundaries, wide multisigs (typed or not: the library decides, L1 judges), hash kinds
+TypedExtra0 == {a \in NumBoundary(WrapStride) \cup WideMulti(WrapStride) : TypeOf(a, Ctx).ok /\ m_k_ok(a)}
+TypedExtra == (TypedExtra0 \cup {a \in HashSwapped(Typed0 \cup TypedComp) : TypeOf(a, Ctx).ok}) \ (Typed0 \cup TypedComp \cup TypedWrap)
+Typed == Typed0 \cup TypedComp \cup TypedWrap \cup TypedExtra
 Untyped == {a \in UNION {AllAst[i] : i \in 1..MaxAllNodes} : KeyCanonical(a)} \ Typed
 
 CaseSeq ==
-  LET S == SetToSeq(Typed0)  C == SetToSeq(TypedComp)  W == SetToSeq(TypedWrap)  U == SetToSeq(Untyped) IN
+  LET S == SetToSeq(Typed0)  C == SetToSeq(TypedComp)  W == SetToSeq(TypedWrap)  U == SetToSeq(Untyped)
+      X == SetToSeq(TypedExtra \cup {a \in NumBoundary(WrapStride) \cup WideMulti(WrapStride) : ~(TypeOf(a, Ctx).ok /\ m_k_ok(a))}) IN
   [i \in 1..Len(S) |-> [id |-> i, ctx |-> Ctx, ast |-> S[i], dom |-> "wt"]]
   \o [i \in 1..Len(C) |-> [id |-> Len(S) + i, ctx |-> Ctx, ast |-> C[i], dom |-> "comp"]]
   \o [i \in 1..Len(W) |-> [id |-> Len(S) + Len(C) + i, ctx |-> Ctx, ast |-> W[i], dom |-> "wrap"]]
+  \o [i \in 1..Len(X) |-> [id |-> Len(S) + Len(C) + Len(W) + Len(U) + i, ctx |-> Ctx, ast |-> X[i], dom |-> "extra"]]
   \o [i \in 1..Len(U) |-> [id |-> Len(S) + Len(C) + Len(W) + i, ctx |-> Ctx, ast |-> U[i], dom |-> "all"]]
 
 ASSUME ndJsonSerialize(IOEnv.OUT, CaseSeq)
